@@ -25,6 +25,8 @@ type chanState struct {
 	sendq  []*chanWaiter
 	recvq  []*chanWaiter
 	vc     []uint64
+	selq   []*selWaiter // blocked select statements with a case on this (unbuffered) channel
+	stash  []any        // values taken out while probing whether the channel was closed behind the simulator's back
 }
 
 var chans = map[uintptr]*chanState{}
@@ -109,6 +111,17 @@ func ChanSend[T any](ch chan<- T, v T) {
 		s.wakeAll()
 		return
 	}
+	if p := st.selPeer(false, nil); p != nil {
+		// a blocked select offers to receive
+		p.ss.claimed = p.idx
+		p.ss.cases[p.idx].deliver(v, true)
+		p.ss.hasVal = true
+		p.ss.t.vcJoin(t.vc)
+		p.ss.unregister()
+		t.vcTick()
+		s.wakeAll()
+		return
+	}
 	w := &chanWaiter{t: t, val: v, vc: append([]uint64(nil), t.vc...)}
 	st.sendq = append(st.sendq, w)
 	t.vcTick()
@@ -140,6 +153,9 @@ func ChanRecv2[T any](ch <-chan T) (T, bool) {
 	}
 	st := chanOf(ch)
 	t.G.ev(11<<40, uint64(cap(ch)))
+	if len(st.stash) > 0 {
+		return recvNow(t, st, ch)
+	}
 	if cap(ch) > 0 {
 		for {
 			got := false
@@ -172,9 +188,17 @@ func ChanRecv2[T any](ch <-chan T) (T, bool) {
 	if st.closed {
 		return zero, false
 	}
+	if st.selPeer(true, nil) != nil {
+		return recvNow(t, st, ch) // a blocked select offers to send
+	}
 	w := &chanWaiter{t: t}
 	st.recvq = append(st.recvq, w)
-	s.block(t, func() bool { return w.done || st.closed })
+	s.block(t, func() bool {
+		if !w.done && !st.closed {
+			probeClosed(st, ch)
+		}
+		return w.done || st.closed
+	})
 	if w.done {
 		t.vcJoin(w.vc)
 		if w.val == nil {
